@@ -190,6 +190,14 @@ def _menus():
                                    obs=25, norm=False, rw="sparse"), gen="random", items=20, ems=60)
     add("BinPack", "csv", bp(lambda: bpg.CSVGenerator(_binpack_csv_path(), max_num_ems=30), obs=30),
         gen="csv")
+    # exact dense/sparse twins (C08)
+    add("BinPack", "r10e20s2_sparse", bp(lambda: bpg.RandomGenerator(10, 20, split_num_same_items=2,
+                                                                      container_dims=(10, 7, 5)), obs=20, norm=False,
+                                         rw="sparse"), gen="random", items=10, ems=20)
+    add("BinPack", "r5e10s1o6_dense", bp(lambda: bpg.RandomGenerator(5, 10, split_num_same_items=1,
+                                                                      container_dims=(10, 7, 5)), obs=6, rw="dense"),
+        gen="random", items=5, ems=10)
+    add("BinPack", "toy_sparse", bp(lambda: bpg.ToyGenerator(), obs=None, rw="sparse"), gen="toy")
     from jumanji.environments.packing.flat_pack import generator as fpg
     from jumanji.environments.packing.flat_pack.reward import BlockDenseReward, CellDenseReward
     for r, c, rw in ((2, 2, "cell"), (2, 3, "block"), (3, 2, "cell"), (3, 3, "block"), (5, 5, "cell")):
@@ -348,7 +356,7 @@ def entries(env: str) -> list:
 QUICK = {
     "Game2048": ["b3", "b4"], "GraphColoring": ["n6p8", "n20p8"], "Minesweeper": ["r3c5m3", "default"],
     "RubiksCube": ["n2s1t3", "n3s7t7"], "SlidingTilePuzzle": ["g3m50t7d", "g2m1t3s"],
-    "Sudoku": ["veryeasy", "dummy"], "BinPack": ["r10e20s2", "r5e10s1o6"], "FlatPack": ["r2c3b", "r3c3b"],
+    "Sudoku": ["veryeasy", "dummy"], "BinPack": ["r10e20s2", "r5e10s1o6"], "FlatPack": ["r2c3b", "r3c2c"],
     "JobShop": ["j3m2o3d2", "j5m4o4d4"], "Knapsack": ["n10s", "n50d"], "Tetris": ["r6c5t7", "r10c10t400"],
     "Cleaner": ["r3c7a1t7", "r5c11a2t3", "r10c10a3tNone"], "Connector": ["g5a2t7rw", "g6a3t50rw"],
     "CVRP": ["n5s", "n20d"], "LevelBasedForaging": ["g6a2f2v2l2cVNp0t100", "g8a3f3v3l3nGRp5t100", "g5a1f1v5l2nVNp0t7"],
